@@ -28,5 +28,5 @@ try:
 except Exception as e:
     print('FAIL', str(e)[:200])
 if fails:
-    print(json.dumps(fails[-1])[:2500])
+    print(json.dumps(fails[-1], default=repr)[:2500])
 print(labels)
